@@ -22,7 +22,7 @@ PROP = dict(
                            "monitor:compare-equal": 20000, "monitor:compare-different": 50000,
                            "monitor:inequal-equal": 5000, "monitor:inequal-different": 5000,
                            "monitor:source-unchanged": 20000, "outcome:refused-too-long": 100}),
-              dict(name="c16_cxx", src=["c16_cxx.cpp"], libs=["mpt++", "mptio", "mptplot", "mptcore"], batch=256, lsan=True,
+              dict(name="c16_cxx", memcheck=500, src=["c16_cxx.cpp"], libs=["mpt++", "mptio", "mptplot", "mptcore"], batch=256, lsan=True,
                    floors={"identifier::set_name": 5000, "identifier::operator=": 2000, "identifier::identifier(copy)": 500,
                            "identifier::equal": 10000, "item::operator=": 300, "transition:long>short": 500,
                            "monitor:release-witness": 1000, "monitor:readback": 20000})],
